@@ -194,12 +194,14 @@ class Oracle:
         self.unparsed = []
         self.ctx_getter = None
         self.in_body = False  # statements issued by the body itself are body atoms, not version statements
+        self.fired = None  # where the injected failure was raised
         self.in_batch = False  # inside op.batch_alter_table(): its statements are counted in the cursor hook
         self.ids = [rid for rid, _ in sorted(rev_index.items(), key=lambda kv: kv[1])]
         self.tddl_seen = None
 
     def _tick(self):
         if self.fail is not None and self.fail[0] == self.step and self.fail[1] == self.pos:
+            self.fired = [self.step, self.pos]
             raise KINDS[self.fail[2] if len(self.fail) > 2 else "exception"]()
 
     def body(self, rid, direction, engine_name=None):
@@ -426,7 +428,7 @@ def make_script_dir(scratch, hist, path, template="generic", patch_env=False, na
     return cfg
 
 
-def run_command(cfg, bodies, rev_index, cmd, target, engine_mode, fail, configure_kw=None, hook=False, shape="stock"):
+def run_command(cfg, bodies, rev_index, cmd, target, engine_mode, fail, configure_kw=None, hook=False, shape="stock", sql=False):
     """alembic.command.upgrade/downgrade through the shipped env.py (pysqlite default; with
     engine_mode == "recipe" the recipe is installed on the Engine class for the duration).
     configure_kw / hook: only with a patched env.py (see make_script_dir)."""
@@ -453,9 +455,9 @@ def run_command(cfg, bodies, rev_index, cmd, target, engine_mode, fail, configur
     cwd = os.getcwd()
     try:
         if cmd == "upgrade":
-            command.upgrade(cfg, target)
+            command.upgrade(cfg, target, sql=sql)
         else:
-            command.downgrade(cfg, target)
+            command.downgrade(cfg, target, sql=sql)
         res = "ok"
     except INJECTED:
         res = "boom"
@@ -474,6 +476,86 @@ def run_command(cfg, bodies, rev_index, cmd, target, engine_mode, fail, configur
     if orc.tddl_seen is None:
         orc.tddl_seen = bool((configure_kw or {}).get("transactional_ddl"))
     return res, orc
+
+
+# ------------------------------------------------------------------------------------------
+# offline (--sql) mode: the emitted script is the observable; it is judged by applying it, statement by
+# statement, to a database in the start state
+
+def run_offline(hist, bodies, rev_index, cmd, target, config, fail, start_rows):
+    """env.py shape in as_sql mode on the sqlite dialect.  returns (result, oracle, emitted text)"""
+    import io
+
+    orc = Oracle(bodies, rev_index, fail)
+    fb = {}
+    for r in hist:
+        rid = r["id"]
+        fb[rid] = ((lambda rid=rid, **kw: orc.body(rid, "up")), (lambda rid=rid, **kw: orc.body(rid, "down")))
+    sd = revfake.make_sd(hist, fb)
+
+    def fn(heads, ctx):
+        if cmd == "upgrade":
+            return sd._upgrade_revs(target, heads)
+        return sd._downgrade_revs(target, heads)
+
+    buf = io.StringIO()
+    opts = {"as_sql": True, "output_buffer": buf, "fn": fn, "script": sd, "transaction_per_migration": bool(config["perMig"]),
+            "on_version_apply": (orc.on_version_apply,)}
+    if config.get("tddl") is not None:
+        opts["transactional_ddl"] = config["tddl"]
+    if start_rows:
+        opts["starting_rev"] = list(start_rows) if len(start_rows) > 1 else start_rows[0]
+    holder = {}
+    orc.ctx_getter = lambda: holder["ctx"]
+    try:
+        ctx = MigrationContext.configure(dialect_name="sqlite", opts=opts)
+        holder["ctx"] = ctx
+        with ctx.begin_transaction():
+            ctx.run_migrations()
+        res = "ok"
+    except INJECTED:
+        res = "boom"
+    except BaseException as e:
+        res = "err:" + revfake.exc_class(e)
+    if "ctx" in holder:
+        orc.tddl_seen = bool(holder["ctx"].impl.transactional_ddl)
+    return res, orc, buf.getvalue()
+
+
+def split_script(text):
+    """statements of an emitted script (comment lines dropped), in order, with the index of the step (`-- Running`
+    section) each belongs to (-1 = before the first step)"""
+    out = []
+    step = -1
+    for chunk in text.split(";\n"):
+        lines = []
+        for ln in chunk.splitlines():
+            if ln.strip().startswith("-- Running"):
+                step += 1
+            elif ln.strip() and not ln.strip().startswith("--"):
+                lines.append(ln)
+        st = "\n".join(lines).strip()
+        if st:
+            out.append((step, st))
+    return out
+
+
+def apply_script(path, text):
+    """applies the script statement by statement, honouring its own BEGIN/COMMIT (sqlite3 in autocommit mode);
+    a transaction the script leaves open is rolled back when the connection is closed.  returns the SQL errors."""
+    import sqlite3
+
+    errors = []
+    con = sqlite3.connect(path, isolation_level=None)
+    try:
+        for _, st in split_script(text):
+            try:
+                con.execute(st)
+            except sqlite3.Error as e:
+                errors.append("%s: %s" % (st[:60], e))
+    finally:
+        con.close()
+    return errors
 
 
 TWODB_ENV = '''# hand-written env.py: several databases migrated from ONE env.py run, each with its own settings
